@@ -109,6 +109,9 @@ var c13Rules = []c13Rule{
 	c13R(`^trailers include 'grpc-status-details-bin' value that disagrees with 'grpc-status' value: -?\d+ != -?\d+$`, "st:details-code"),
 	c13R(`^trailers include 'grpc-status-details-bin' value with zero/okay 'grpc-status' and non-empty details$`, "st:details-with-ok"),
 	c13R(`^trailers include 'grpc-status-details-bin' value that disagrees with 'grpc-message' value: ".*" != ".*"$`, "st:details-msg"),
+	// binary metadata
+	c13R(`^(headers|trailers|metadata) include incorrectly-encoded '.*' value: .*$`, "bm:invalid"),
+	c13R(`^(headers|trailers|metadata) include '.*' value with padding but servers should emit unpadded: .*$`, "bm:padded"),
 	// Connect error JSON
 	c13R(`^connect error JSON: value for key "code" is a [^"]+ instead of a string$`, "ce:code-type"),
 	c13R(`^connect error JSON: value for key "code" is not a recognized error code name: ".*"$`, "ce:code-unknown"),
@@ -306,6 +309,9 @@ type c13ExamineOut struct {
 	Headers []c13HdrIn `json:"headers"`
 	Fb2     []string   `json:"fb2"`
 	Oracle  *c13Oracle `json:"oracle"`
+	// Fb3: checkBinaryMetadata on the parsed trailers (in the order of Headers), as the reference
+	// client applies it to the trailers of a gRPC-Web response
+	Fb3 []string `json:"fb3"`
 }
 
 func c13Examine(c *gen.Ctx, block string) c13ExamineOut {
@@ -327,6 +333,11 @@ func c13Examine(c *gen.Ctx, block string) c13ExamineOut {
 	}
 	out.Oracle = c13OracleFor(h)
 	out.Fb2 = c13Classes(c, rc.VerifC13CheckGRPCStatus(h))
+	var parsed []*conformancev1.Header
+	for _, k := range keys {
+		parsed = append(parsed, &conformancev1.Header{Name: k, Value: h[k]})
+	}
+	out.Fb3 = c13Classes(c, rc.VerifC13CheckBinaryMetadata("trailers", parsed))
 	if len(out.Fb1) == 0 && len(out.Fb2) == 0 {
 		c.E.Count("examine:clean")
 	} else {
